@@ -67,6 +67,17 @@ def gen_evolve1d(rng, tier):
     for c in g.gen_dress(rng, tier):
         call = c['calls'][0]
         yield {'kind': 'evolve1d/dress/%s/%s' % (call['dress'], g.VALID[call['memo']]), 'dim': 'evolve1d', 'call': call}
+    # rules that return a view of their neighbourhood, write into it, or re-enter the library; calls written with
+    # positional / keyword arguments (C03 round-6 buckets; the logging wrapper records the contents BEFORE the rule
+    # touches them).  The oracle-only inplace/sortrank cases stay in C03.
+    for src in (g.gen_retview, g.gen_inplace, g.gen_reentrant, g.gen_callform):
+        for c in src(rng, tier):
+            if c.get('oracle_only'):
+                continue
+            call = c['calls'][0]
+            yield {'kind': 'evolve1d/%s/%s' % ('/'.join(c['kind'].split('/')[:2]) if c['kind'].startswith('inplace') else
+                                                c['kind'].split('/')[0], g.VALID[call['memo']]),
+                   'dim': 'evolve1d', 'call': call}
 
 
 # ---- 1D, ORACLE-ONLY: one long call with more than 2**20 distinct neighbourhoods
@@ -217,7 +228,7 @@ def gen_evolve2d(rng, tier):
         elif kind == 'bigr':          # windows > 1000 cells: memoize=True of the first two von Neumann processes (Coq cost)
             nbig += 1
             calls = [cl for cl in c['calls'] if cl['memo'] == 'true' and cl['ty'] == 'vn'] if nbig <= 2 else []
-        elif kind == 'dress':         # every dressing of the rule callable / predicate, all modes
+        elif kind in ('dress', 'reentrant'):   # every dressing of the rule callable / predicate; every nested evolution
             calls = c['calls']
         elif kind == 'floatret' and c.get('neg'):
             calls = []                # the negated family has no C09 model; the positive one is RLin / RAff itself
@@ -265,11 +276,10 @@ def run_evolve2d(c):
     from harness import twins
     call = c['call']
     ca = g2._layout(np.array(call['hist'], dtype=np.dtype(call['dtype'])), call.get('layout'))
-    base = make_rule(call['rule'], dim=2)
-    if call.get('fret'):               # non-integral float results (stored truncated): same contents, same counts
-        base = g2.HalfLin(base, call['fret']['frac'], call['fret']['neg'], call['fret']['np'])
-    rule = Logged2(base)
-    handed = twins.dress(rule, call.get('dress'))      # the dressing is the outermost wrapper; the log sits inside
+    # the C04 twin of the call (family member / HalfLin / InPlace / Scribble / ProjView2), logged; re-entrancy and the
+    # dressing go AROUND the log (the dressing outermost), so the log holds the calls of the outer rule only
+    rule = Logged2(g2._inner_rule(call))
+    handed = g2._wrap_outer(call, rule)
     for pc in c.get('prior', []):          # earlier calls of the same process with the same rule object
         pca = np.array(pc['hist'], dtype=np.dtype(pc['dtype']))
         call_impl(lambda: cpl.evolve2d(pca, timesteps=g2._timesteps(pc['ts']), apply_rule=handed, r=pc['r'],
@@ -277,8 +287,10 @@ def run_evolve2d(c):
                                        memoize=g2.OPTIONS[pc['memo']][0]()))
     rule.log = []
     nb = 'Moore' if call['ty'] == 'moore' else 'von Neumann'
-    res = call_impl(lambda: cpl.evolve2d(ca, timesteps=g2._timesteps(call['ts'], call.get('pdress')), apply_rule=handed,
-                                         r=call['r'], neighbourhood=nb, memoize=g2.OPTIONS[call['memo']][0]()))
+    nested = g2._nested(call) if call.get('reent') and call['reent']['where'] == 'pred' else None
+    names = ['cellular_automaton', 'timesteps', 'apply_rule', 'r', 'neighbourhood', 'memoize']
+    values = [ca, g2._timesteps(call['ts'], call.get('pdress'), nested), handed, call['r'], nb, g2.OPTIONS[call['memo']][0]()]
+    res = call_impl(lambda: twins.invoke(cpl.evolve2d, names, values, call.get('npos', 0)))
     if res[0] != 'ok':
         return list(res)
     arr = g2._grids(res[1])
